@@ -35,11 +35,11 @@ use std::io::Write;
 use std::panic::{AssertUnwindSafe, catch_unwind};
 
 use llfree::{
-    Alloc, Class, Classing, Error, FrameId, HUGE_FRAMES, HUGE_ORDER, Init, LLFree, MetaData, Policy,
+    Alloc, Class, Classing, Error, FrameId, HUGE_FRAMES, HUGE_ORDER, Init, LLFree, MetaData,
     PolicyFn, Request, TREE_FRAMES, TREE_HUGE, TREE_ORDER, TreeChange, TreeId, TreeMatch,
     TreeOperation,
 };
-use llfree_verif_harness::{Args, Rng, out};
+use llfree_verif_harness::{Args, Rng, out, policy_by_name};
 
 // ------------------------------------------------------------------------------------------ panics
 thread_local! {
@@ -177,37 +177,9 @@ impl Pol {
         }
     }
     fn func(self) -> PolicyFn {
-        match self {
-            // the nested policy functions of the crate's own classings
-            Pol::Simple | Pol::Zeroslot => Classing::simple(1).0.policy,
-            Pol::Movable => Classing::movable(1).0.policy,
-            Pol::Zeroed => zeroed_policy,
-            Pol::Custom => custom_policy,
-        }
+        // shared with polrun (tabulated there against Policies.v): harness/src/lib.rs
+        policy_by_name(self.name())
     }
-}
-
-/// eval/tests/integration.rs `zeroed_steals_from_huge`
-fn zeroed_policy(requested: Class, target: Class, free: usize) -> Policy {
-    if requested.0 > target.0 {
-        return Policy::Steal;
-    } else if requested.0 < target.0 {
-        return Policy::Demote;
-    }
-    match free {
-        f if f >= TREE_FRAMES / 2 => Policy::Match(1),
-        f if f >= TREE_FRAMES / 64 => Policy::Match(u8::MAX),
-        _ => Policy::Match(0),
-    }
-}
-
-/// Three classes; requested 0 on target 2 and requested 2 on target 0 are unusable, everything else
-/// is rated like the simple policy (Coq: Policies.v `pol_custom`).
-fn custom_policy(requested: Class, target: Class, free: usize) -> Policy {
-    if (requested.0 == 0 && target.0 == 2) || (requested.0 == 2 && target.0 == 0) {
-        return Policy::Invalid;
-    }
-    zeroed_policy(requested, target, free)
 }
 
 #[derive(Clone, Debug)]
